@@ -251,6 +251,15 @@ impl<'a> ScopeGen<'a> {
             }
             "advance" => {
                 let d = self.rng.range(-50, 50) as i32;
+                if self.rng.chance(1, 4) {
+                    let idx = self.reg_idx(RegKind::Count);
+                    return vec![Op::Scale {
+                        g: self.g(),
+                        idx,
+                        mul: self.rng.chance(1, 2),
+                        k: *self.rng.pick(&[-3, -1, 1, 2, 3, 7]),
+                    }];
+                }
                 if self.rng.chance(1, 3) {
                     let t = self.target();
                     vec![Op::AdvanceViaAlias { g: self.g(), t, d }]
